@@ -2,7 +2,7 @@
 Theorems on F3.Validator (partially / fully / complete / strip / validate); h_validate runs both production paths on
 the same inputs with completion performed by pmsg's own statements (inferJustificationVoteValue via accessor)."""
 
-NONTRIVIAL = r"^(t|s|h) "
+NONTRIVIAL = r"^(t|tt|s|h) "
 
 
 def search(ctx):
